@@ -27,6 +27,8 @@ func main() {
 		cmdList(os.Args[2:])
 	case "replay":
 		cmdReplay(os.Args[2:])
+	case "rac":
+		cmdRac(os.Args[2:])
 	default:
 		die("unknown command %s", os.Args[1])
 	}
@@ -195,3 +197,57 @@ func cmdList(args []string) {
 	}
 }
 
+
+// cmdRac runs the runtime assertion check of the contracts against the real code on sampled inputs
+// (a sanity check of contracts and of assumed contracts; bounded, never counted as proved).
+func cmdRac(args []string) {
+	W, err := LoadWorld(repoDir())
+	if err != nil {
+		die("load: %v", err)
+	}
+	names := args
+	if len(names) == 0 {
+		names = W.spec.Order
+	}
+	type res struct{ name, out string }
+	ch := make(chan res)
+	sem := make(chan bool, 8)
+	n := 0
+	for _, name := range names {
+		fc, fn := W.spec.Funcs[name], W.funcs[name]
+		if fc == nil || fn == nil || fn.Blocks == nil || fn.Pkg != W.spkg {
+			continue
+		}
+		src, err := W.racTest(fn, fc)
+		if err != nil {
+			fmt.Printf("SKIP %s: %v\n", name, err)
+			continue
+		}
+		n++
+		go func(name, src string) {
+			sem <- true
+			out, _ := runRAC(W, src, []string{"VERIF_SEED=" + os.Getenv("VERIF_SEED"), "RAC_SECONDS=8", "RAC_TRIALS=20000"}, 150*time.Second)
+			<-sem
+			ch <- res{name, out}
+		}(name, src)
+	}
+	bad := 0
+	for i := 0; i < n; i++ {
+		r := <-ch
+		switch {
+		case strings.Contains(r.out, "RACFAIL"):
+			bad++
+			for _, l := range strings.Split(r.out, "\n") {
+				if strings.Contains(l, "RACFAIL") {
+					fmt.Printf("FAIL %s: %s\n", r.name, truncate(strings.TrimSpace(l), 600))
+				}
+			}
+		case strings.HasPrefix(strings.TrimSpace(r.out), "ok"):
+			fmt.Printf("ok   %s\n", r.name)
+		default:
+			bad++
+			fmt.Printf("ERR  %s: %s\n", r.name, truncate(r.out, 800))
+		}
+	}
+	fmt.Printf("%d functions checked at run time, %d with failures\n", n, bad)
+}
